@@ -30,6 +30,9 @@ type FloatV struct {
 
 type Poison struct{ Why string }
 
+// ReflectV is the result of reflect.ValueOf (only IsNil is supported on it).
+type ReflectV struct{ V Value }
+
 type TupleV []Value
 
 // ByteStore is the backing store of []intN / string data: a base SMT array plus
